@@ -501,6 +501,19 @@ def Histo.updateTotal {α : Type} (A : Arith α) (env : Env) (h : Histo) (vt : V
   let vt' ← h'.fullRender A env vt
   pure (h', vt')
 
+/-- a call on a `HistoWriter`: `WriteForLine(n, key, val)` or `UpdateTotal(total)` -/
+inductive HistoOp where
+  | line (n : Nat) (key : Bytes) (val : Int)
+  | total (t : Int)
+
+def Histo.applyOp {α : Type} (A : Arith α) (env : Env) (st : Histo × VirtualTerm) : HistoOp → Res (Histo × VirtualTerm)
+  | .line n key val => st.1.writeForLine A env st.2 (n : Int) key val
+  | .total t => st.1.updateTotal A env st.2 t
+
+/-- a sequence of calls, in order -/
+def Histo.runOps {α : Type} (A : Arith α) (env : Env) (st : Histo × VirtualTerm) (ops : List HistoOp) : Res (Histo × VirtualTerm) :=
+  ops.foldlM (Histo.applyOp A env) st
+
 def Histo.writeFooter (h : Histo) (vt : VirtualTerm) (idx : Int) (line : Bytes) : Res VirtualTerm :=
   vt.writeForLine (h.items.length + idx) line
 
